@@ -2,8 +2,8 @@
    Only statements closed by `exact`; the lemmas live in ErrorModels/DistQ.v (exact rationals, setoid
    equality ==) and ErrorModels/DistR.v (biased-Y-X with sqrt over Coq's real numbers).
    All theorems quantify over every p in [0,1] and every admissible parameter value. *)
-From Coq Require Import QArith Qabs List Bool Reals.
-From QV Require Import ErrorModels.DistQ ErrorModels.DistR.
+From Coq Require Import QArith Qabs List Bool Reals Floats.
+From QV Require Import ErrorModels.DistQ ErrorModels.DistR ErrorModels.DistFloat.
 Import ListNotations.
 Open Scope Q_scope.
 
@@ -150,6 +150,14 @@ Example c16_ex_ctor : slice_ctor (LimSeq [PQ (-(1)); PQ 0; PQ 0]) (PQ (1 # 2)) =
   slice_ctor (LimSeq [PQ 1; PQ 0; PQ 3]) (PQ (-(1))) = Accept /\ biased_ctor (PQ 0) (AxStr [89%nat]) = RaiseValue /\
   biased_ctor (PQ 3) (AxStr [122%nat]) = Accept /\ yx_ctor (PQ 0) = Accept /\ yx_ctor PNaN = RaiseValue.
 Proof. repeat split; reflexivity. Qed.
+
+(* known defect F2 reproduced bit for bit by the binary64 model (ErrorModels/DistFloat.v): the exact theorem
+   c16_simplex_biased holds, the float evaluation at bias 0.001, p = 1 returns Pr(I) = -2^-52 *)
+Example c16_ex_F2_binary64 :
+  feq4 (biasedF 0x1.0624dd2f1a9fcp-10 AY 1)
+       ((-0x1p-52)%float, 0x1.ff7d0f16c2e0ap-2, 0x1.05e1d27a3ee9dp-10, 0x1.ff7d0f16c2e0ap-2)%float = true
+  /\ negI (biasedF 0x1.0624dd2f1a9fcp-10 AY 1) = true.
+Proof. exact F2_reproduced. Qed.
 
 Print Assumptions c16_simplex_depolarizing. Print Assumptions c16_pi_depolarizing. Print Assumptions c16_depolarizing_thirds.
 Print Assumptions c16_bit_flip. Print Assumptions c16_phase_flip. Print Assumptions c16_bit_phase_flip.
